@@ -100,6 +100,38 @@ class NF:
 
 
 @labtech.task
+class NZ:
+    """A task type whose instances are falsy (defines __bool__)."""
+    name: str
+    one: Any = None
+    many: Any = ()
+    named: Any = None
+    p: Any = None
+
+    def __bool__(self):
+        return False
+
+    def run(self):
+        return run_body(self)
+
+
+@labtech.task
+class NE:
+    """Context filter that legitimately selects nothing (returns an empty dict)."""
+    name: str
+    one: Any = None
+    many: Any = ()
+    named: Any = None
+    p: Any = None
+
+    def filter_context(self, context):
+        return {k: v for k, v in context.items() if k == f'only_for_{self.name}_which_never_exists'}
+
+    def run(self):
+        return run_body(self)
+
+
+@labtech.task
 class NT:
     """Transforming (non-idempotent) context filter: derives and renames values."""
     name: str
@@ -201,8 +233,8 @@ class NSJ:
         return run_body(self)
 
 
-TYPES = {c.__name__: c for c in (NA, NB, NC, ND, NN, NJ, NF, NP, NAX, NS, NSJ, NM, NK, NT)}
-MAX_PARALLEL = {'NT': None, 'NM': 2, 'NK': 1, 'NS': None, 'NSJ': None, 'NA': None, 'NB': 1, 'NC': 2, 'ND': 3, 'NN': None, 'NJ': None, 'NF': None, 'NP': None, 'NAX': None}
+TYPES = {c.__name__: c for c in (NA, NB, NC, ND, NN, NJ, NF, NP, NAX, NS, NSJ, NM, NK, NT, NE, NZ)}
+MAX_PARALLEL = {'NZ': None, 'NE': None, 'NT': None, 'NM': 2, 'NK': 1, 'NS': None, 'NSJ': None, 'NA': None, 'NB': 1, 'NC': 2, 'ND': 3, 'NN': None, 'NJ': None, 'NF': None, 'NP': None, 'NAX': None}
 UNCACHED = {'NN', 'NM'}
 
 
@@ -212,6 +244,8 @@ def filter_ctx(tname, name, ctx):
         return None
     if tname == 'NF':
         return {k: v for k, v in ctx.items() if k in ('shared', f'for_{name}')}
+    if tname == 'NE':
+        return {}
     if tname == 'NT':
         return {'depth': ctx.get('depth', 0) + 1, 'mine': ctx.get(f'for_{name}', ctx.get('shared')), 'n_keys': len(ctx)}
     return ctx
